@@ -275,6 +275,16 @@ package dialer
 // C14 (the annotation of the first matching filter line shapes the ranking): whenever a latency sample exists
 // for the notified node and it is alive afterwards, its entry is ranked by that sample PLUS its add_latency
 // offset - the same value the cached best is compared with
+// C16 (the kernel connectivity bit of a latency-policy group follows its alive state): the alive-change callback
+// fires with true exactly when the set had no best node before and has one after the notification, with false exactly
+// when it had one and has none after, and not at all otherwise - whether or not the node has a latency sample.
+//@   at call dyn:aliveChangeCallback#1 assert a0 == false
+//@   at call dyn:aliveChangeCallback#2 assert a0 == true
+//@   at call dyn:aliveChangeCallback#3 assert a0 == false
+//@   at call dyn:aliveChangeCallback#4 assert a0 == true
+//@   ensures isMinPol(a) && old(a.minLatency.dialer) == nil && a.minLatency.dialer != nil ==> calls("dyn:aliveChangeCallback") == 1
+//@   ensures isMinPol(a) && old(a.minLatency.dialer) != nil && a.minLatency.dialer == nil ==> calls("dyn:aliveChangeCallback") == 1
+//@   ensures (old(a.minLatency.dialer) == nil) == (a.minLatency.dialer == nil) ==> calls("dyn:aliveChangeCallback") == 0
 //@   ghostfn rawL() int
 //@   ghostfn gotL() bool
 //@   at call snapshotLatencyForPolicy#1 assume-after nth(result, 0) == rawL() && nth(result, 1) == gotL()
